@@ -1114,7 +1114,9 @@ def gen_C05(c, rng, tier):
         fmt = FMTS[t]
         half = min(fmt.emax // 2 - 2, 500)
         # values whose square neither overflows (all fields stay finite, as the property requires)
-        extremes = [Fraction(2) ** fmt.emin, Fraction(2) ** half - 1, -(Fraction(2) ** half) * 3 / 4, '-0', Fraction(1, 3), Fraction(2) ** (fmt.emin + 5) * 3, Fraction(1, 10),
+        full = fmt.emax // 2 - 2        # (long double: decimal exponents with four digits, also negative numbers with four-digit exponents)
+        extremes = [-(Fraction(2) ** full) * 5 / 8, Fraction(2) ** (full - 3) * 7, -Fraction(2) ** (-full + 4) * 3,
+                    Fraction(2) ** fmt.emin, Fraction(2) ** half - 1, -(Fraction(2) ** half) * 3 / 4, '-0', Fraction(1, 3), Fraction(2) ** (fmt.emin + 5) * 3, Fraction(1, 10),
                     -Fraction(2) ** (4 - half), Fraction(123456789, 1000), fmt.pred(Fraction(1)), fmt.succ(Fraction(1))]
         # every representable class, through fields that are stored verbatim: a user grid and the adaptation parameters of a
         # fresh checkpoint (no iteration is run, so nothing is computed from them)
@@ -1136,8 +1138,10 @@ def gen_C05(c, rng, tier):
                 ext = rng.random() < 0.5
                 if ext:
                     # one call per iteration: the sum IS the table value (any finite value)
-                    vals = [fmt.round(v) if isnum(v) else v for v in rng.sample(extremes, 4)]
-                    s, cl, info = rand_run(rng, fmt, kind, iters=rng.choice([1, 2, 3]), calls=[1], poly=False)
+                    picked = rng.sample(extremes, 4)
+                    vals = [fmt.round(v) if isnum(v) else v for v in picked]
+                    # (the three largest magnitudes only without distributions: a bin holds the value divided by the bin size, whose square overflows)
+                    s, cl, info = rand_run(rng, fmt, kind, iters=rng.choice([1, 2, 3]), calls=[1], poly=False, dists=([] if any(v in extremes[:2] for v in picked) else None))
                     s = [e if e[0] != 'f' else ['f', ['tab', toks(fmt, vals)]] for e in s]
                     cl.append('extreme_values')
                 else:
